@@ -147,7 +147,12 @@ fn check_section(r: &mut Report, name: &str, m: &Mesh, convex: bool, n: &Vector3
     for (tn, t) in commute.iter() {
         let dc = || format!("{} moved by {}", desc(), tn);
         let (n2, d2) = moved_plane(n, d, t);
-        let c2 = match moved(m, t).section(&plane(&n2, d2), None) { Ok(c) => c, Err(_) => { r.check(false, "section: returns Ok", dc); continue; } };
+        // the plane is moved the way a caller moves it: Plane3::transform_by; it must be the image of the plane
+        let tp = plane(n, d).transform_by(t);
+        r.check((tp.normal.into_inner() - n2).norm() <= EPS && eq(tp.d, d2) && (tp.d - d2).abs() <= EPS * (1.0 + d2.abs()),
+            "Plane3::transform_by yields the image of the plane under the rigid motion (normal rotated, offset = d + rotated normal . translation)",
+            || format!("{}: transform_by gives normal ({:?}, {:?}, {:?}) d {:?}, the image plane has normal ({:?}, {:?}, {:?}) d {:?}", dc(), tp.normal.x, tp.normal.y, tp.normal.z, tp.d, n2.x, n2.y, n2.z, d2));
+        let c2 = match moved(m, t).section(&tp, None) { Ok(c) => c, Err(_) => { r.check(false, "section: returns Ok", dc); continue; } };
         // the loops may come in another order: every loop has a partner with the same vertex count, length and vertices
         let mut same = c2.len() == curves.len();
         if same {
@@ -160,6 +165,25 @@ fn check_section(r: &mut Report, name: &str, m: &Mesh, convex: bool, n: &Vector3
         r.check(same, "section: commutes with rigid motion of mesh and plane together (same loops, vertex for vertex)", dc);
     }
     curves.len()
+}
+
+/// (kind, area of the negative part, area of the positive part): kind 0 = Pair, -1 = Negative, 1 = Positive
+fn split_summary(m: &Mesh, pl: &Plane3) -> (i32, f64, f64) {
+    match m.split(pl) {
+        SplitResult::Positive => (1, 0.0, 0.0),
+        SplitResult::Negative => (-1, 0.0, 0.0),
+        SplitResult::Pair(a, b) => (0, area(a.vertices(), a.faces()), area(b.vertices(), b.faces())),
+    }
+}
+/// splitting commutes with rigid motion of mesh and plane together (plane moved with Plane3::transform_by): same
+/// verdict, same areas on either side
+fn check_split_commutes(r: &mut Report, name: &str, m: &Mesh, n: &Vector3, d: f64, commute: &[(&str, Iso3)]) {
+    let s0 = split_summary(m, &plane(n, d));
+    for (tn, t) in commute.iter() {
+        let s1 = split_summary(&moved(m, t), &plane(n, d).transform_by(t));
+        r.check(s0.0 == s1.0 && eq(s0.1, s1.1) && eq(s0.2, s1.2), "split: commutes with rigid motion of mesh and plane together (same verdict, same areas on either side)",
+            || format!("{} plane normal ({:?}, {:?}, {:?}) d {:?} moved by {}: (verdict, negative area, positive area) {:?} before, {:?} after", name, n.x, n.y, n.z, d, tn, s0, s1));
+    }
 }
 
 fn check_split(r: &mut Report, name: &str, m: &Mesh, n: &Vector3, d: f64) {
@@ -213,8 +237,46 @@ fn base_meshes() -> Vec<(&'static str, Mesh, bool)> {
          ("L-shaped prism (0,0),(4,0),(4,1),(1,1),(1,3),(0,3) x 2 (non-convex)", lprism, false)]
 }
 
+/// the same watertight solids built through the other public constructors (is_solid = true): new_with_options without
+/// and with the merge / delete options, new_with_uv, and an appended pair
+fn constructor_variants() -> Vec<(String, Mesh, bool)> {
+    let mut out: Vec<(String, Mesh, bool)> = vec![];
+    for (name, m, convex) in base_meshes() {
+        let (v, f) = (m.vertices().to_vec(), m.faces().to_vec());
+        for (merge, del) in [(false, false), (true, false), (false, true), (true, true)] {
+            if let Ok(x) = Mesh::new_with_options(v.clone(), f.clone(), true, merge, del, None) {
+                out.push((format!("{} built with Mesh::new_with_options(is_solid = true, merge_duplicates = {}, delete_degenerate = {})", name, merge, del), x, convex));
+            }
+        }
+        out.push((format!("{} built with Mesh::new_with_uv(is_solid = true, None)", name), Mesh::new_with_uv(v.clone(), f.clone(), true, None), convex));
+    }
+    out.push(("Mesh::create_box(1, 1, 1, true)".to_string(), Mesh::create_box(1.0, 1.0, 1.0, true), true));
+    out.push(("Mesh::create_box(0.5, 4, 1.25, true)".to_string(), Mesh::create_box(0.5, 4.0, 1.25, true), true));
+    out
+}
+
+/// k disjoint boxes in ONE mesh (box i: create_box(1 + i/8, 2, 3 - i/4) moved by (2.5 i, 0.75 (i mod 3), 0.5 (i mod 2))),
+/// built either by appending solid boxes or with new_with_options(is_solid = true); the vertex ranges of the solids
+fn box_row(k: usize, via_options: bool) -> (Mesh, Vec<(usize, usize)>) {
+    let mut v: Vec<Point3> = vec![];
+    let mut f: Vec<[u32; 3]> = vec![];
+    let mut ranges = vec![];
+    let mut appended: Option<Mesh> = None;
+    for i in 0..k {
+        let mut b = Mesh::create_box(1.0 + i as f64 / 8.0, 2.0, 3.0 - i as f64 / 4.0, true);
+        b.transform(&Iso3::translation(2.5 * i as f64, 0.75 * (i % 3) as f64, 0.5 * (i % 2) as f64));
+        let base = v.len() as u32;
+        ranges.push((v.len(), v.len() + b.vertices().len()));
+        v.extend(b.vertices().iter().cloned());
+        f.extend(b.faces().iter().map(|t| [t[0] + base, t[1] + base, t[2] + base]));
+        match appended.as_mut() { None => appended = Some(b), Some(a) => { let _ = a.append(&b); } }
+    }
+    let m = if via_options { Mesh::new_with_options(v, f, true, false, false, None).expect("new_with_options") } else { appended.unwrap() };
+    (m, ranges)
+}
+
 pub fn run() -> Option<Report> {
-    let mut r = Report::new("watertight meshes: box 2x3x4, triangular prism, tetrahedron (convex) and an L-shaped prism (non-convex, sections with two loops), in 4 poses (identity, translation, quarter turn about z + translation, third turn about (1,1,1)); planes: 17 normals (axis-aligned, all sign patterns of (1,1,1), (1,2,2)/3, (2,-3,6)/7, mixed-sign oblique ones) x offsets missing the mesh by 0.5, odd sixteenths of the extent, 0.25 and 2^-12 inside either end (single corners cut off, segments shorter than 1e-3); planes with a mesh vertex closer than 1e-5 skipped; section additionally compared after 4 further rigid motions (cube group + integer translations); split additionally on an open two-triangle strip; tolerance 1e-9 relative");
+    let mut r = Report::new("watertight meshes: box 2x3x4, triangular prism, tetrahedron (convex) and an L-shaped prism (non-convex, sections with two loops), in 4 poses (identity, translation, quarter turn about z + translation, third turn about (1,1,1)); planes: 17 normals (axis-aligned, all sign patterns of (1,1,1), (1,2,2)/3, (2,-3,6)/7, mixed-sign oblique ones) x offsets missing the mesh by 0.5, odd sixteenths of the extent, 0.25 and 2^-12 inside either end (single corners cut off, segments shorter than 1e-3); planes with a mesh vertex closer than 1e-5 skipped; section additionally compared after 4 further rigid motions (cube group + integer translations); split additionally on an open two-triangle strip; the plane of every moved configuration is produced by Plane3::transform_by (5 motions incl. a general one: rotation by 0.7 rad about (1,2,2) then +(0.5,-1.25,2)) and split is compared across them as well; the same solids built with Mesh::new_with_options(is_solid = true, 4 option pairs) / new_with_uv / create_box(.., true) in 2 poses x 9 normals x 6 offsets; 2, 5, 6 and 10 disjoint boxes in one mesh (appended, or new_with_options is_solid = true) in 2 poses x 7 normals x 9 offsets: as many closed loops as boxes crossed; tolerance 1e-9 relative");
     let q = |ax: Vector3, ang: f64| UnitQuaternion::from_axis_angle(&UnitVec3::new_normalize(ax), ang);
     let poses: Vec<(&str, Iso3)> = vec![
         ("identity", Iso3::identity()),
@@ -227,6 +289,8 @@ pub fn run() -> Option<Report> {
         ("Ry90 then +(1,-2,3)", Iso3::from_parts(Translation3::new(1.0, -2.0, 3.0), q(Vector3::y(), PI / 2.0))),
         ("Rz180 then +(0,5,0)", Iso3::from_parts(Translation3::new(0.0, 5.0, 0.0), q(Vector3::z(), PI))),
         ("R(1,1,1)240 then +(-3,0,7)", Iso3::from_parts(Translation3::new(-3.0, 0.0, 7.0), q(Vector3::new(1.0, 1.0, 1.0), 4.0 * PI / 3.0))),
+        // a general motion: rotates every normal of the list and translates along every one of them
+        ("R(1,2,2)0.7rad then +(0.5,-1.25,2)", Iso3::from_parts(Translation3::new(0.5, -1.25, 2.0), q(Vector3::new(1.0, 2.0, 2.0), 0.7))),
     ];
     let nv = |x: f64, y: f64, z: f64| Vector3::new(x, y, z).normalize();
     let normals = vec![
@@ -253,10 +317,55 @@ pub fn run() -> Option<Report> {
                     if k == 2 { two_loops += 1; }
                     if k == 1 && (d - lo - thin).abs() < 1e-12 { three_seg += 1; }
                     check_split(&mut r, &name, &m, n, d);
+                    check_split_commutes(&mut r, &name, &m, n, d, &commute);
                 }
             }
         }
     }
+    // ---- the same solids through the other constructors (is_solid = true): split area sums and sections
+    let general = Iso3::from_parts(Translation3::new(-2.0, 1.5, 0.25), q(Vector3::new(2.0, -1.0, 2.0), 1.1));
+    for (name, base, convex) in constructor_variants().iter() {
+        for (pname, pose) in [("identity", Iso3::identity()), ("R(2,-1,2)1.1rad then +(-2,1.5,0.25)", general)] {
+            let m = moved(base, &pose);
+            let name = format!("{} in pose {}", name, pname);
+            for n in normals.iter().step_by(2) {
+                let s: Vec<f64> = m.vertices().iter().map(|p| n.dot(&p.coords)).collect();
+                let lo = s.iter().cloned().fold(f64::INFINITY, f64::min);
+                let hi = s.iter().cloned().fold(f64::NEG_INFINITY, f64::max);
+                for d in [lo - 0.5, lo + 0.25, lo + (hi - lo) * 5.0 / 16.0, lo + (hi - lo) * 9.0 / 16.0, hi - thin, hi + 0.5] {
+                    if s.iter().any(|x| (x - d).abs() < 1e-5) { continue; }
+                    check_section(&mut r, &name, &m, *convex, n, d, &commute[4..]);
+                    check_split(&mut r, &name, &m, n, d);
+                    check_split_commutes(&mut r, &name, &m, n, d, &commute[1..2]);
+                }
+            }
+        }
+    }
+    // ---- several disjoint solids in one mesh: as many closed loops as solids crossed, every crossing segment once
+    let mut many = 0usize;
+    for k in [2usize, 5, 6, 10] { for via_options in [false, true] {
+        let (base, ranges) = box_row(k, via_options);
+        for (pname, pose) in [("identity", Iso3::identity()), ("R(2,-1,2)1.1rad then +(-2,1.5,0.25)", general)] {
+            let m = moved(&base, &pose);
+            let name = format!("{} disjoint boxes in one mesh ({}) in pose {}", k, if via_options { "Mesh::new_with_options, is_solid = true" } else { "solid boxes appended" }, pname);
+            for n0 in [nv(0.0, 0.0, 1.0), nv(0.0, 1.0, 0.0), nv(0.0, -1.0, 0.2), nv(1.0, 0.0, 0.0), nv(1.0, 1.0, 1.0), nv(1.0, -3.0, 2.0), Vector3::new(1.0, 2.0, 2.0) / 3.0] {
+                let n = pose.rotation * n0; // the same cuts in either pose
+                let s: Vec<f64> = m.vertices().iter().map(|p| n.dot(&p.coords)).collect();
+                let lo = s.iter().cloned().fold(f64::INFINITY, f64::min);
+                let hi = s.iter().cloned().fold(f64::NEG_INFINITY, f64::max);
+                for kf in [-1.0, 1.0, 3.0, 5.0, 8.0, 11.0, 13.0, 15.0, 17.0] {
+                    let d = lo + (hi - lo) * kf / 16.0 + 1.0 / 64.0;
+                    if s.iter().any(|x| (x - d).abs() < 1e-5) { continue; }
+                    let crossed = ranges.iter().filter(|(a, b)| s[*a..*b].iter().any(|x| *x < d) && s[*a..*b].iter().any(|x| *x > d)).count();
+                    let loops = check_section(&mut r, &name, &m, false, &n, d, &commute[4..]);
+                    r.check(loops == crossed, "section: as many closed loops as disjoint convex solids crossed by the plane", || format!("{} plane normal ({:?}, {:?}, {:?}) d {:?}: {} curves, {} solids crossed", name, n.x, n.y, n.z, d, loops, crossed));
+                    if crossed >= 5 { many += 1; }
+                    check_split(&mut r, &name, &m, &n, d);
+                }
+            }
+        }
+    } }
+    r.check(many >= 24, "coverage: the input space contains sections through five or more disjoint solids", || format!("{} such sections", many));
     r.check(two_loops >= 8 && three_seg >= 8, "coverage: the input space contains two-loop sections and thin corner cuts", || format!("two-loop sections {}, thin cuts {}", two_loops, three_seg));
     // split of an open mesh (section is NOT run on open meshes, see the header)
     let p = |x: f64, y: f64, z: f64| Point3::new(x, y, z);
